@@ -199,10 +199,18 @@ package ftp
 //@   ensures [inv] filesystem.fsinv(ftp.Htfs) ==> filesystem.fsinv(result.Htfs)
 //@   modifies nothing
 //
+// The constructor installs the file driver, the one kind of driver that has a per-session copy; Handle
+// relies on it (a driver of another type would be shared by all sessions as it is).
+//@ func FTP
+//@   assume-result filesystem.New: result1 == nil
+//@   ensures [fs-driver] typeis(result, *ftpService) && unbox(result, *ftpService) != nil && typeis(unbox(result, *ftpService).driver, *Fs) && unbox(unbox(result, *ftpService).driver, *Fs) != nil
+//@   modifies *
+//
 //@ func (*ftpService).Handle
-//@   physical typeis(s.driver, *Fs) ==> unbox(s.driver, *Fs) != nil && unbox(s.driver, *Fs).Htfs != nil
+//@   requires typeis(s.driver, *Fs) && unbox(s.driver, *Fs) != nil
+//@   physical unbox(s.driver, *Fs).Htfs != nil
 //@   callpre (*Server).newConn: fresh(recv)
-//@   callpre (*Server).newConn: typeis(caller.s.driver, *Fs) ==> typeis(driver, *Fs) && fresh(unbox(driver, *Fs)) && fresh(unbox(driver, *Fs).Htfs)
+//@   callpre (*Server).newConn: typeis(driver, *Fs) && fresh(unbox(driver, *Fs)) && fresh(unbox(driver, *Fs).Htfs)
 //@   ensures [pump-ends] closed(recv)
 //@   modifies *
 //
